@@ -141,7 +141,7 @@ pub fn compare(r: &Req, imp: &str, model: &str) -> Option<bool> {
         let v: Vec<String> = t.iter().enumerate().map(|(i, x)| if tols.get(i).map(|z| !z.is_finite()).unwrap_or(false) { "?".to_string() } else { x.to_string() }).collect();
         if v.is_empty() { "[]".into() } else { v.join(",") }
     };
-    let mode = crate::cmp::Mode { rel: 1e-9, int_out: false, null_is_zero: false };
+    let mode = crate::cmp::Mode { rel: 1e-9, floor: 1.0, int_out: false, null_is_zero: false };
     let m = model.split(';').next().unwrap_or("");
     let (a, b, m) = (blank(a), blank(b), blank(m));
     let finite: Vec<f64> = tols.iter().map(|t| if t.is_finite() { *t } else { 0.0 }).collect();
@@ -196,7 +196,9 @@ pub fn generate(tier: &str, rng: &mut Rng) -> (Vec<String>, bool) {
                 if mp.is_none() && f.mp_none_needs_len_ge_w && k < w {
                     continue;
                 }
-                let mut l = format!("C06pre f={} k={} w={} mp={} t=f64 o=f64 xs={}{}", f.name, k, w, mp_tok(mp), join(&xs), f.extra);
+                // every third series on a backend that uses the default (iterator) drivers
+                let b = if (len + w) % 3 == 0 { " b=deque1" } else if (len + w) % 3 == 1 { " b=ndv2" } else { "" };
+                let mut l = format!("C06pre f={} k={} w={} mp={} t=f64 o=f64{} xs={}{}", f.name, k, w, mp_tok(mp), b, join(&xs), f.extra);
                 if f.arity == 2 {
                     l.push_str(&format!(" ys={}", join(&ys)));
                 }
@@ -219,7 +221,8 @@ pub fn generate(tier: &str, rng: &mut Rng) -> (Vec<String>, bool) {
             let xs = rand_series(rng, tl, 8, false, f.nullable);
             let ha = rand_series(rng, hl, mag, false, f.nullable);
             let hb = rand_series(rng, hl, mag, false, f.nullable);
-            let mut l = format!("C06hist f={} w={} mp={} t=f64 o=f64 tol={} xs={} ha={} hb={}{}", f.name, w, mp_tok(mp), tol, join(&xs), join(&ha), join(&hb), f.extra);
+            let b = if i % 3 == 0 { " b=deque1" } else if i % 3 == 1 { " b=arcdeque2" } else { "" };
+            let mut l = format!("C06hist f={} w={} mp={} t=f64 o=f64{} tol={} xs={} ha={} hb={}{}", f.name, w, mp_tok(mp), b, tol, join(&xs), join(&ha), join(&hb), f.extra);
             if f.arity == 2 {
                 let ys = rand_series(rng, tl, 8, false, f.nullable);
                 let ga = rand_series(rng, hl, mag, false, f.nullable);
@@ -233,5 +236,5 @@ pub fn generate(tier: &str, rng: &mut Rng) -> (Vec<String>, bool) {
 }
 
 pub fn rule(tier: &str) -> String {
-    format!("relational runs on the real code for all {} catalogued rolling entry points: (a) prefix runs — for random series every cut 0..=len, prefix result compared token-for-token (full-precision floats, i.e. bit-for-bit) with the prefix of the whole result; (b) history replacement — two random pre-window histories of equal length (up to {}) in front of the same tail, outputs from position |h|+w-1 on compared with each other (exactly for min/max/arg/rank) and with the Lean model. non-trivial = distinct request with a non-null output.", ROLL.len(), if tier == "thorough" { "200, magnitudes up to 2^20 with a scaled tolerance" } else { "40, |v| <= 64 so power sums are exact" })
+    format!("relational runs on the real code for all {} catalogued rolling entry points (on Vec, VecDeque with a wrapped ring buffer, Arc<VecDeque> and a strided ndarray view in rotation): (a) prefix runs — for random series every cut 0..=len, prefix result compared token-for-token (full-precision floats, i.e. bit-for-bit) with the prefix of the whole result; (b) history replacement — two random pre-window histories of equal length (up to {}) in front of the same tail, outputs from position |h|+w-1 on compared with each other (exactly for min/max/arg/rank) and with the Lean model. non-trivial = distinct request with a non-null output.", ROLL.len(), if tier == "thorough" { "200, magnitudes up to 2^20 with a scaled tolerance" } else { "40, |v| <= 64 so power sums are exact" })
 }
